@@ -512,7 +512,7 @@ impl<RW: QueueRW<T>, T> InnerSend<RW, T> {
         if signal.has_action() {
             let disconnected = self.handle_signals(signal);
             if disconnected {
-                return Err(TrySendError::Full(val));
+                return Err(TrySendError::Disconnected(val));
             }
         }
         let val = match self.state.get() {
